@@ -159,6 +159,40 @@ fn gen_case(seed: u64, tier: Tier) -> Case {
 			spatial: sp,
 		});
 	}
+	// prelude (a quarter of the scenes with tracks): some tracks are paused and resumed with
+	// fades before anything plays. The fades themselves are quantised to internal chunks (so
+	// nothing audible happens during them); once every world has them Playing again - a fade
+	// plus two of the largest internal buffers later - the renderings must agree as before
+	if n_tracks > 0 && g.rng.chance(0.25) {
+		let chosen: Vec<usize> = (0..n_tracks).filter(|_| g.rng.chance(0.6)).collect();
+		let d1 = *g.rng.pick(&[0.0, 0.004, 0.03]);
+		let d2 = *g.rng.pick(&[0.001, 0.004, 0.03]);
+		let fade = |dur: f64| TweenSpec {
+			start: StartSpec::Immediate,
+			dur,
+			easing: EasingSpec::Linear,
+		};
+		for t in &chosen {
+			setup.push(Op::Track {
+				track: *t,
+				cmd: TrackCmd::Pause(fade(d1)),
+			});
+		}
+		setup.push(Op::Callback {
+			frames: (d1 * sample_rate as f64) as usize + g.rng.urange(1, 300),
+			channels,
+		});
+		for t in &chosen {
+			setup.push(Op::Track {
+				track: *t,
+				cmd: TrackCmd::Resume(fade(d2)),
+			});
+		}
+		setup.push(Op::Callback {
+			frames: (d2 * sample_rate as f64) as usize + 2 * 4096 + 16,
+			channels,
+		});
+	}
 	let n_sounds = g.rng.urange(1, 5);
 	let mut any_streaming = false;
 	let total_frames = match tier {
@@ -405,7 +439,7 @@ impl Check for C11 {
 		CheckInfo {
 			id: "C11",
 			level: "exploration",
-			rule: "each case = a scene (main/sub/spatial/send tracks with every built-in effect at fixed parameters incl. effects nested in a delay's feedback loop, 1..5 static or streaming sounds with any rate, loop, reverse, pan, immediate start) rendered in three worlds that differ only in internal buffer size (1..4096) and callback partition (1-frame, equal to the buffer, random, non-multiples, zero-frame, one huge callback); non-trivial = non-silent output; distinct = hash of (recursive?, scene size, buffer sizes, partition classes, channels)",
+			rule: "each case = a scene (main/sub/spatial/send tracks with every built-in effect at fixed parameters incl. effects nested in a delay's feedback loop, 1..5 static or streaming sounds with any rate, loop, reverse, pan, immediate start; a quarter of the scenes with tracks begin with a prelude in which some tracks are paused and resumed with fades before anything plays, and play once every world has them Playing again) rendered in three worlds that differ only in internal buffer size (1..4096) and callback partition (1-frame, equal to the buffer, random, non-multiples, zero-frame, one huge callback); non-trivial = non-silent output; distinct = hash of (recursive?, scene size, buffer sizes, partition classes, channels)",
 			assumptions: vec![
 				"parameters are constant (no modulators, tweens, delayed or clock starts, no commands after setup), as the property requires".into(),
 				"streaming decoders are run until they sleep or end before every callback in every world (decoder keeps ahead)".into(),
